@@ -5,7 +5,8 @@ import json
 from check import Result
 
 PROP = "C12"
-TARGETS = ["NetqasmVerif.Props.C12", "NetqasmVerif.Props.C12Bridge", "NetqasmVerif.Props.QlinkObligations"]
+TARGETS = ["NetqasmVerif.Props.C12", "NetqasmVerif.Props.C12Bridge", "NetqasmVerif.Props.QlinkObligations",
+           "NetqasmVerif.Props.C12Controller"]
 M = "NetqasmVerif.Props.C12"
 THEOREMS = [(M, "NQ.C12." + n) for n in [
     "exactly_once", "exactly_once_count", "consumed_by_oldest_in_order", "consumed_by_head",
@@ -15,6 +16,11 @@ THEOREMS = [(M, "NQ.C12." + n) for n in [
 MQ = "NetqasmVerif.Props.QlinkObligations"
 THEOREMS += [(MQ, "NQ.Qlink." + n) for n in ["response_conversion_copies_every_field", "basis_conversion_exact",
                                              "bell_state_verbatim"]]
+MC = "NetqasmVerif.Props.C12Controller"
+THEOREMS += [(MC, "NQ.C12." + n) for n in [
+    "controller_refines_exec", "controller_exactly_once", "controller_consumed_by_oldest_in_order",
+    "controller_consume_refines", "inv_controller_consume", "inv_controller_tick", "controller_wait_sound",
+    "epr_fault_atomic", "wait_block_unchanged", "controller_rejected_issue_unchanged", "controller_nonvacuous"]]
 MB = "NetqasmVerif.Props.C12Bridge"
 THEOREMS += [(MB, "NQ.C12." + n) for n in [
     "keep_handler_is_exec_keep", "handler_preserves_qubit_invariant", "measure_handler_keeps_rel",
@@ -34,6 +40,12 @@ LEVEL_TEXT = ('Lean theorems over a transition system of the controller\'s EPR b
               'a model-free oracle of the six invariants plus quiescence (after a delivery or poll no handleable '
               'response is left pending; a request whose queue received all its responses is retired) on the '
               'executor\'s own fields; scenarios include both roles on one socket with early-arriving responses.')
+LEVEL_TEXT += (' The combined controller model (Model/Controller.lean = Exec + Epr by composition: Exec\'s '
+               'instruction set plus register-level create_epr/recv_epr/wait_*, deliver/poll on Exec\'s arrays and '
+               'unit module) satisfies the same theorems for every reachable controller state, equals Exec on '
+               'EPR-free programs, preserves C13\'s invariant, and is compared with the real executor on the FULL '
+               'state (registers, all arrays, shared memory, unit modules, program counters, queues, pending) '
+               'after every action.')
 LEVEL_NOTE = ('Trusted: Lean kernel; harness/epr.py (schedule replay, canonicalisation); the hand-written model '
               'Model/Epr.lean is tied to executor.py only by the correspondence stream. Registers and request '
               'decoding are outside this model (C04/C11). Environment assumptions are hypotheses: issuing '
@@ -70,11 +82,29 @@ ASSUMPTIONS = [
 
 
 def _run_case(ctx, res, H, sc, toks, tag):
-    init, steps, orc = H.replay_real(sc, toks)
+    rp = H.Replayer(sc, H.new_executor())
+    # the controller model (Model/Controller.lean) is compared on the FULL state (registers, all arrays,
+    # shared memory, unit modules, program counters, queues, pending) — every case in the thorough tier,
+    # a sample in the quick tier
+    rp.full = ctx.thorough or (res.evaluations % 5 == 0) or tag == "replay"
+    for tok in toks:
+        rp.step(tok)
+        if rp.stopped:
+            break
+    init, steps, orc = rp.init_acts, rp.steps, rp.oracle
     req = H.model_request(init, steps)
     out = ctx.driver.call(req)
     res.evaluations += 1
     d = H.compare_with_model(out, init, steps) if "obs" in out else {"model": out}
+    if rp.full:
+        cout = ctx.driver.call(H.ctl_request(rp))
+        dc = H.compare_with_ctl(cout, rp) if "obs" in cout else {"model": cout}
+        res.count("controller-model-full-state")
+        if dc is not None:
+            res.disagreements.append({"stream": "ctl.run (full state)", "input": {"scenario": sc.desc(), "schedule": toks},
+                                      "model": json.loads(json.dumps(dc.get("model", dc), default=str)),
+                                      "code": json.loads(json.dumps(dc.get("code", dc), default=str)),
+                                      "what": str(dc.get("what", ""))})
     nact = sum(len(s["acts"]) for s in steps)
     res.count("actions", nact)
     res.count("responses-consumed", len(orc.consumed))
@@ -144,7 +174,7 @@ def run(ctx):
     rng = ctx.rng
     # several executor instances in one process (two nodes), schedules interleaved: a response parked at
     # one executor must never show up at, or be consumed by, the other
-    n_two = 1500 if ctx.thorough else 250
+    n_two = 1000 if ctx.thorough else 200
     for i in range(n_two):
         if len(res.failures) >= MAX_FAILURES:
             break
@@ -154,7 +184,7 @@ def run(ctx):
         toks = H.interleave(rng, H.random_schedule(scs[0], rng, early=rng.choice([0, 1, 2])),
                             H.random_schedule(scs[1], rng, early=rng.choice([0, 1, 2])))
         _run_two(ctx, res, H, scs, toks)
-    n_random = 25000 if ctx.thorough else 2000
+    n_random = 9000 if ctx.thorough else 1300
     for i in range(n_random):
         if len(res.failures) >= MAX_FAILURES:
             break
@@ -163,7 +193,7 @@ def run(ctx):
         toks = H.random_schedule(sc, rng)
         _run_case(ctx, res, H, sc, toks, "rnd")
     # create and receive roles mixed on ONE socket, responses arriving before their instruction ran
-    n_mixed = 5000 if ctx.thorough else 500
+    n_mixed = 3000 if ctx.thorough else 400
     for i in range(n_mixed):
         if len(res.failures) >= MAX_FAILURES:
             break
@@ -173,7 +203,7 @@ def run(ctx):
         res.count("mixed-roles-one-socket")
     # faults at the environment boundary: the network stack refuses a request (put raises) or does not
     # know the socket (get_purpose_id raises) inside one subroutine; the others go on using the socket
-    n_fault = 3000 if ctx.thorough else 500
+    n_fault = 2000 if ctx.thorough else 350
     for i in range(n_fault):
         if len(res.failures) >= MAX_FAILURES:
             break
@@ -183,8 +213,8 @@ def run(ctx):
         res.count("stack-fault:%s" % sc.fault)
     # exhaustive interleavings of small scenarios (one subroutine): every merge of the instruction
     # sequence with the per-queue response sequences; counted as complete when not cut by the cap
-    n_small = 36 if ctx.thorough else 6
-    cap = 2000 if ctx.thorough else 300
+    n_small = 18 if ctx.thorough else 5
+    cap = 1500 if ctx.thorough else 250
     for i in range(n_small):
         if len(res.failures) >= MAX_FAILURES:
             break
